@@ -7,6 +7,8 @@ Built on `ProtoLocks` (locks, flag, cond) and `ProtoData` (table contents, copy 
 binding and the `(value, flag)` the call returns.
 -/
 set_option linter.unusedSectionVars false
+set_option linter.unusedVariables false
+set_option linter.unusedSimpArgs false
 namespace Proofs.ProtoLin
 open Spec Model.Proto Proofs.ProtoLocks Proofs.ProtoData
 
@@ -23,5 +25,1272 @@ def specDc (f : Option V → V × Bool) (lie co : Bool) (cur : Option V) : Optio
   | none =>
     if (f none).2 then (none, none, false)
     else (some (f none).1, some (f none).1, co)
+
+/-! ## part: local invariants (facts about the locals of one thread, preserved by its own steps) -/
+
+/-- a property of the locals of a thread that holds initially and is preserved by the steps of the thread holds
+for every thread of every reachable state -/
+theorem local_run (p : Params K) (P : L K V → Prop)
+    (hstep : ∀ t g l c g' l', P l → tstep p t g l c = some (g', l') → P l')
+    (sched : List (Tid × Choice K V)) (s s' : St K V) (h : ∀ u, P (s.l u)) (hr : run p s sched = some s') :
+    ∀ u, P (s'.l u) := by
+  induction sched generalizing s with
+  | nil => simp only [run, Option.some.injEq] at hr; subst hr; exact h
+  | cons a rest ih =>
+    obtain ⟨t, c⟩ := a
+    simp only [run] at hr
+    split at hr
+    · rename_i s1 heq
+      refine ih s1 ?_ hr
+      unfold step at heq
+      split at heq
+      · simp at heq
+      · rename_i g' l' hts
+        simp only [Option.some.injEq] at heq; subst heq
+        intro u; dsimp only
+        by_cases hu : u = t
+        · rw [if_pos hu]; exact hstep t s.g (s.l t) c g' l' (h t) hts
+        · rw [if_neg hu]; exact h u
+    · simp at hr
+
+theorem local_reach (p : Params K) (P : L K V → Prop) (h0 : P L.init)
+    (hstep : ∀ t g l c g' l', P l → tstep p t g l c = some (g', l') → P l')
+    (s : St K V) (h : Reach p s) : ∀ u, P (s.l u) := by
+  obtain ⟨sched, hr⟩ := h
+  exact local_run p P hstep sched _ s (fun _ => h0) hr
+
+theorem startOp_pc_ne (l : L K V) (op : POp K V) :
+    (startOp l op).pc ≠ .dcCommit ∧ (startOp l op).pc ≠ .dcScan ∧ (startOp l op).pc ≠ .dcFn ∧
+    (startOp l op).pc ≠ .dcUnlock ∧ (startOp l op).pc ≠ .ldRead ∧ (startOp l op).pc ≠ .ret := by
+  have := (startOp_pc l op).1; grind
+
+theorem popCont_pc_ne (l : L K V) :
+    (popCont l).pc ≠ .dcCommit ∧ (popCont l).pc ≠ .dcScan ∧ (popCont l).pc ≠ .dcFn ∧
+    (popCont l).pc ≠ .dcUnlock ∧ (popCont l).pc ≠ .ldRead := by
+  have := (popCont_pc l).1; grind
+
+/-- the pc `dcCommit` is entered only from `dcFn`, which stores the result of the user function -/
+theorem commit_entry (p : Params K) (t : Tid) (g : G K V) (l : L K V) (c : Choice K V) (g' : G K V) (l' : L K V)
+    (hs : tstep p t g l c = some (g', l')) (h : l'.pc = .dcCommit) :
+    l.pc = .dcFn ∧ l'.op = l.op ∧ l'.old = l.old ∧
+      ∀ k f lie co, l.op = some (.dc k f lie co) → l'.fnres = some (f l.old) := by
+  have hP := (popCont_pc_ne l).1
+  have hS := fun l op => (startOp_pc_ne (K := K) (V := V) l op).1
+  cases hpc : l.pc <;> simp only [tstep, hpc] at hs <;> (repeat' split at hs) <;>
+    simp only [Option.some.injEq, reduceCtorEq, Prod.mk.injEq] at hs <;> obtain ⟨-, rfl⟩ := hs <;>
+    simp_all [callResize, callWait]
+
+/-- at `dcCommit` the stored function result is the function applied to the binding found by the scan -/
+def FR (l : L K V) : Prop :=
+  l.pc = .dcCommit → ∀ k f lie co, l.op = some (.dc k f lie co) → l.fnres = some (f l.old)
+
+theorem fr_reach (p : Params K) (s : St K V) (h : Reach p s) (u : Tid) : FR (s.l u) := by
+  refine local_reach p FR (fun h => by cases h) ?_ s h u
+  intro t g l c g' l' _ hs hpc k f lie co hop
+  obtain ⟨-, h2, h3, h4⟩ := commit_entry p t g l c g' l' hs hpc
+  rw [h3]; exact h4 k f lie co (by rw [← h2]; exact hop)
+
+/-! ## part: Level 1 — the linearization points of a writer -/
+
+/-- **the commit step, on any table generation**: with `old` the binding the scan found (which is still the binding
+of the key in the writer's table), the step installs `(specDc f lie co old).1` in that table and fixes the result
+of the call to the value/flag of `specDc` -/
+theorem commit_step_spec (p : Params K) (t : Tid) (g : G K V) (l : L K V) (c : Choice K V) (g' : G K V) (l' : L K V)
+    (k : K) (f : Option V → V × Bool) (lie co : Bool)
+    (hop : l.op = some (.dc k f lie co)) (hpc : l.pc = .dcCommit)
+    (hfr : l.fnres = some (f l.old)) (hold : l.old = (g.tables l.tbl).data.get k) (hlie : lie = true → l.old = none)
+    (hs : tstep p t g l c = some (g', l')) :
+    (g'.tables l.tbl).data.get k = (specDc f lie co l.old).1 ∧
+    l'.result = some (.val (specDc f lie co l.old).2.1 (specDc f lie co l.old).2.2) ∧
+    l'.pc = .dcUnlock ∧ l'.op = l.op ∧ l'.tbl = l.tbl ∧ g'.cur = g.cur := by
+  simp only [tstep, hpc, opKey, dcFlags, hop, hfr] at hs
+  cases ho : l.old with
+  | none =>
+    rw [ho] at hs hold
+    cases hd : (f none).2 with
+    | true =>
+      simp only [hd, if_true, Option.some.injEq, Prod.mk.injEq] at hs
+      obtain ⟨rfl, rfl⟩ := hs
+      simp [specDc, hd, ← hold, hop]
+    | false =>
+      simp only [hd, Bool.false_eq_true, if_false, Option.some.injEq, Prod.mk.injEq] at hs
+      obtain ⟨rfl, rfl⟩ := hs
+      simp [specDc, hd, setTbl, AMap.get_set, hop]
+  | some o =>
+    have hl : lie = false := by
+      cases lie with
+      | false => rfl
+      | true => rw [hlie rfl] at ho; cases ho
+    subst hl
+    rw [ho] at hs hold
+    cases hd : (f (some o)).2 with
+    | true =>
+      simp only [hd, if_true, Option.some.injEq, Prod.mk.injEq] at hs
+      obtain ⟨rfl, rfl⟩ := hs
+      simp [specDc, hd, setTbl, AMap.get_erase, hop]
+    | false =>
+      simp only [hd, Bool.false_eq_true, if_false, Option.some.injEq, Prod.mk.injEq] at hs
+      obtain ⟨rfl, rfl⟩ := hs
+      simp [specDc, hd, setTbl, AMap.get_set, hop]
+
+/-- the facts about a writer at `dcCommit` that `commit_step_spec` needs, in every reachable state -/
+theorem commit_facts (p : Params K) (hmin : 0 < p.minLen) (s : St K V) (h : Reach p s) (t : Tid)
+    (k : K) (f : Option V → V × Bool) (lie co : Bool)
+    (hop : (s.l t).op = some (.dc k f lie co)) (hpc : (s.l t).pc = .dcCommit) :
+    (s.l t).fnres = some (f (s.l t).old) ∧ (s.l t).old = (s.g.tables (s.l t).tbl).data.get k ∧
+      (lie = true → (s.l t).old = none) := by
+  refine ⟨fr_reach p s h t hpc k f lie co hop, ?_, ?_⟩
+  · exact ((dinv_reach p hmin s h).ld t).old (Or.inr hpc) k (by simp [opKey, hop])
+  · intro hl
+    exact ((inv_reach p s h).2 t).wf.lieold (Or.inr hpc) (by simp [dcFlags, hop, hl])
+
+/-- **(1a)** the commit of a writer working on the current table is a step of the sequential specification:
+the abstract binding of the key goes from `absGet s.g k` to `(specDc … (absGet s.g k)).1`, and the result of
+the call is fixed to the value/flag of `specDc` -/
+theorem commit_is_spec_step (p : Params K) (hmin : 0 < p.minLen) (s : St K V) (h : Reach p s) (t : Tid)
+    (k : K) (f : Option V → V × Bool) (lie co : Bool)
+    (hop : (s.l t).op = some (.dc k f lie co)) (hpc : (s.l t).pc = .dcCommit) (htbl : (s.l t).tbl = s.g.cur)
+    (c : Choice K V) (g' : G K V) (l' : L K V) (hs : tstep p t s.g (s.l t) c = some (g', l')) :
+    absGet g' k = (specDc f lie co (absGet s.g k)).1 ∧
+    l'.result = some (.val (specDc f lie co (absGet s.g k)).2.1 (specDc f lie co (absGet s.g k)).2.2) ∧
+    ∀ k', k' ≠ k → absGet g' k' = absGet s.g k' := by
+  obtain ⟨h1, h2, h3⟩ := commit_facts p hmin s h t k f lie co hop hpc
+  obtain ⟨e1, e2, -, -, -, e3⟩ := commit_step_spec p t s.g (s.l t) c g' l' k f lie co hop hpc h1 h2 h3 hs
+  have hab : absGet s.g k = (s.l t).old := by rw [h2, htbl]; rfl
+  refine ⟨?_, ?_, ?_⟩
+  · rw [hab, ← e1]; unfold absGet; rw [e3, htbl]
+  · rw [hab]; exact e2
+  · intro k' hk'
+    exact commit_changes_only_key p t s.g (s.l t) c g' l' hpc hs k' (by simp [opKey, hop]; exact hk')
+
+/-- shape of the step at `dcScan` (under the bucket lock): nothing shared changes; a hit of a `loadIfExists` call
+fixes the result; otherwise the binding found is remembered in `old` -/
+theorem scan_step (p : Params K) (t : Tid) (g : G K V) (l : L K V) (c : Choice K V) (g' : G K V) (l' : L K V)
+    (k : K) (f : Option V → V × Bool) (lie co : Bool)
+    (hop : l.op = some (.dc k f lie co)) (hpc : l.pc = .dcScan)
+    (hs : tstep p t g l c = some (g', l')) :
+    g' = g ∧ l'.op = l.op ∧ l'.tbl = l.tbl ∧ l'.bi = l.bi ∧
+    ((l'.pc = .dcUnlock ∧ lie = true ∧ ∃ x, (g.tables l.tbl).data.get k = some x ∧
+        l'.result = some (.val (some x) (!co))) ∨
+     (l'.pc = .dcFn ∧ l'.old = (g.tables l.tbl).data.get k ∧ l'.result = l.result) ∨
+     (l'.pc = .dcUnlockGrow ∧ l'.result = l.result)) := by
+  simp only [tstep, hpc, opKey, dcFlags, hop] at hs
+  (repeat' split at hs) <;> simp only [Option.some.injEq, Prod.mk.injEq] at hs <;>
+    obtain ⟨rfl, rfl⟩ := hs <;> simp_all
+
+/-- **(1b)** the hit of `loadIfExists` under the bucket lock, on the current table: the call returns what the
+specification returns on the current abstract binding, and the abstract content does not change -/
+theorem scan_hit_is_spec_step (p : Params K) (s : St K V) (t : Tid)
+    (k : K) (f : Option V → V × Bool) (lie co : Bool)
+    (hop : (s.l t).op = some (.dc k f lie co)) (hpc : (s.l t).pc = .dcScan) (htbl : (s.l t).tbl = s.g.cur)
+    (c : Choice K V) (g' : G K V) (l' : L K V) (hs : tstep p t s.g (s.l t) c = some (g', l'))
+    (hhit : l'.pc = .dcUnlock) :
+    lie = true ∧ g' = s.g ∧ absGet g' k = (specDc f lie co (absGet s.g k)).1 ∧
+    l'.result = some (.val (specDc f lie co (absGet s.g k)).2.1 (specDc f lie co (absGet s.g k)).2.2) := by
+  obtain ⟨e1, -, -, -, hcase⟩ := scan_step p t s.g (s.l t) c g' l' k f lie co hop hpc hs
+  rcases hcase with ⟨-, hl, x, hx, hr⟩ | ⟨h, -⟩ | ⟨h, -⟩
+  · have hab : absGet s.g k = some x := by unfold absGet; rw [← htbl]; exact hx
+    subst hl; subst e1
+    refine ⟨rfl, rfl, ?_, ?_⟩
+    · rw [hab]; simp [specDc]
+    · rw [hab, hr]; simp [specDc]
+  · rw [hhit] at h; cases h
+  · rw [hhit] at h; cases h
+
+/-- shape of the step at `ldRead` (the lock-free read of `Load` and of the fast path of LoadOrStore/LoadOrCompute) -/
+theorem read_step (p : Params K) (t : Tid) (g : G K V) (l : L K V) (c : Choice K V) (g' : G K V) (l' : L K V)
+    (k : K) (hk : opKey l = some k) (hpc : l.pc = .ldRead) (hs : tstep p t g l c = some (g', l')) :
+    g' = g ∧ l'.op = l.op ∧
+    ((isDcOp l.op = false ∧ l'.pc = .ret ∧
+        l'.result = some (.val ((g.tables l.tbl).data.get k) ((g.tables l.tbl).data.get k).isSome)) ∨
+     (∃ k0 f lie co x, l.op = some (.dc k0 f lie co) ∧ (g.tables l.tbl).data.get k = some x ∧ l'.pc = .ret ∧
+        l'.result = some (.val (some x) (!co))) ∨
+     (isDcOp l.op = true ∧ (g.tables l.tbl).data.get k = none ∧ l'.pc = .dcLoadTable ∧ l'.result = l.result)) := by
+  simp only [tstep, hpc, hk] at hs
+  rcases hop : l.op with _ | (_ | ⟨k0, f, lie, co⟩ | _ | _ | _) <;> simp only [hop] at hs
+  case some.dc =>
+    have hk0 : k0 = k := by simpa [opKey, hop] using hk
+    subst hk0
+    cases hget : (g.tables l.tbl).data.get k0 <;> simp only [hget, Option.some.injEq, Prod.mk.injEq] at hs <;>
+      obtain ⟨rfl, rfl⟩ := hs <;> simp [hop]
+  all_goals (simp only [Option.some.injEq, Prod.mk.injEq] at hs; obtain ⟨rfl, rfl⟩ := hs; simp [hop])
+
+/-- **(1c)** the hit of the lock-free fast path: the call returns the binding of the key in the table generation
+it loaded (`(s.l t).tbl`), with flag `!computeOnly`, i.e. the value/flag of `specDc f true co` on that binding;
+nothing shared changes.  (That this binding was the abstract binding at some instant inside the call is
+`read_hindsight` below.) -/
+theorem fastpath_hit (p : Params K) (s : St K V) (h : Reach p s) (t : Tid)
+    (k : K) (f : Option V → V × Bool) (lie co : Bool)
+    (hop : (s.l t).op = some (.dc k f lie co)) (hpc : (s.l t).pc = .ldRead)
+    (c : Choice K V) (g' : G K V) (l' : L K V) (hs : tstep p t s.g (s.l t) c = some (g', l'))
+    (hhit : l'.pc = .ret) :
+    lie = true ∧ g' = s.g ∧ ∃ x, (s.g.tables (s.l t).tbl).data.get k = some x ∧
+      l'.result = some (.val (some x) (!co)) ∧
+      l'.result = some (.val (specDc f lie co (some x)).2.1 (specDc f lie co (some x)).2.2) ∧
+      (specDc f lie co (some x)).1 = some x := by
+  have hl : lie = true := by
+    have := (((inv_reach p s h).2 t).wf.ldpre hpc (by rw [hop]; rfl)).2
+    simpa [dcFlags, hop] using this
+  obtain ⟨e1, -, hcase⟩ := read_step p t s.g (s.l t) c g' l' k (by simp [opKey, hop]) hpc hs
+  rcases hcase with ⟨h1, -⟩ | ⟨k0, f0, lie0, co0, x, h1, hx, -, hr⟩ | ⟨-, -, h1, -⟩
+  · rw [hop] at h1; cases h1
+  · rw [hop] at h1; cases h1
+    subst hl
+    exact ⟨rfl, e1, x, hx, hr, by rw [hr]; simp [specDc], by simp [specDc]⟩
+  · rw [hhit] at h1; cases h1
+
+/-! ### (1d) the result is fixed at the linearization point -/
+
+/-- the pcs between the linearization point of a writer (commit or `loadIfExists` hit under the lock) and its
+return: unlock, counter update, the shrink attempt (a nested `resize`, possibly waiting for another resize) -/
+def fixedPc (l : L K V) : Prop :=
+  l.pc = .dcUnlock ∨ l.pc = .dcAddSize ∨ l.pc = .dcMaybeShrink ∨ .dcDone ∈ l.conts
+
+theorem fixed_popCont (l : L K V) (hw : WF l) (h : inRz l.pc = true ∨ inWf l.pc = true) (hd : .dcDone ∈ l.conts) :
+    (popCont l).result = l.result ∧ (popCont l).op = l.op ∧ (popCont l).tbl = l.tbl ∧
+      (fixedPc (popCont l) ∨ (popCont l).pc = .ret) := by
+  by_cases hh : l.hint = .clear <;> rcases conts_cases l hw h with hc | hc | hc | hc | hc | hc <;>
+    simp [popCont, popCont.popContAux, hc, hh, fixedPc] at hd ⊢
+
+/-- between the linearization point and the return, no step of the thread changes `result` (nor `op`) -/
+theorem fixed_step (p : Params K) (t : Tid) (g : G K V) (l : L K V) (c : Choice K V) (g' : G K V) (l' : L K V)
+    (hw : WF l) (hf : fixedPc l) (hs : tstep p t g l c = some (g', l')) :
+    l'.result = l.result ∧ l'.op = l.op ∧ (fixedPc l' ∨ l'.pc = .ret) := by
+  have hc := hw.cshape
+  have hpop := fixed_popCont l hw
+  unfold fixedPc at hf
+  cases hpc : l.pc <;> simp only [tstep, hpc] at hs <;> (repeat' split at hs) <;>
+    simp only [Option.some.injEq, reduceCtorEq, Prod.mk.injEq] at hs <;> obtain ⟨-, rfl⟩ := hs <;>
+    simp_all [fixedPc, contsOK, inRz, inWf, callResize, callWait]
+
+/-- the return step hands `result` to the caller unchanged -/
+theorem ret_step (p : Params K) (t : Tid) (g : G K V) (l : L K V) (c : Choice K V) (g' : G K V) (l' : L K V)
+    (hpc : l.pc = .ret) (hs : tstep p t g l c = some (g', l')) : l'.result = l.result ∧ g' = g := by
+  simp only [tstep, hpc] at hs
+  split at hs <;> simp only [Option.some.injEq, Prod.mk.injEq] at hs <;> obtain ⟨rfl, rfl⟩ := hs <;> exact ⟨rfl, rfl⟩
+
+/-! ## part: history — the steps of a run, without changing the model -/
+
+/-- one step of a run: the state before, the thread that moved, its input, the state after -/
+structure Ev (K V : Type) where
+  pre : St K V
+  tid : Tid
+  ch : Choice K V
+  post : St K V
+
+/-- the steps taken by `run p s sched` (defined alongside `run`; a blocked step ends the list) -/
+def events (p : Params K) (s : St K V) : List (Tid × Choice K V) → List (Ev K V)
+  | [] => []
+  | (t, c) :: rest =>
+    match step p s t c with
+    | some s' => ⟨s, t, c, s'⟩ :: events p s' rest
+    | none => []
+
+/-- the states visited by `run p s sched`, the start state included -/
+def trace (p : Params K) (s : St K V) (sched : List (Tid × Choice K V)) : List (St K V) :=
+  s :: (events p s sched).map (·.post)
+
+/-- the global states visited by the run of `sched` from the initial state -/
+def states (p : Params K) (sched : List (Tid × Choice K V)) : List (G K V) :=
+  (trace (V := V) p (init p) sched).map (·.g)
+
+theorem reach_step (p : Params K) (s s' : St K V) (t : Tid) (c : Choice K V) (h : Reach p s)
+    (hs : step p s t c = some s') : Reach p s' := by
+  obtain ⟨sched, hr⟩ := h
+  refine ⟨sched ++ [(t, c)], ?_⟩
+  have : ∀ (sched : List (Tid × Choice K V)) (s0 : St K V), run p s0 sched = some s →
+      run p s0 (sched ++ [(t, c)]) = some s' := by
+    intro sched
+    induction sched with
+    | nil => intro s0 h0; simp only [run, Option.some.injEq] at h0; subst h0; simp [run, hs]
+    | cons a rest ih =>
+      intro s0 h0
+      obtain ⟨u, d⟩ := a
+      simp only [run, List.cons_append] at h0 ⊢
+      split at h0
+      · rename_i s1 heq; exact ih s1 h0
+      · simp at h0
+  exact this sched _ hr
+
+theorem reach_run (p : Params K) (sched : List (Tid × Choice K V)) (s s' : St K V) (h : Reach p s)
+    (hr : run p s sched = some s') : Reach p s' := by
+  induction sched generalizing s with
+  | nil => simp only [run, Option.some.injEq] at hr; subst hr; exact h
+  | cons a rest ih =>
+    obtain ⟨t, c⟩ := a
+    simp only [run] at hr
+    split at hr
+    · rename_i s1 heq; exact ih s1 (reach_step p s s1 t c h heq) hr
+    · simp at hr
+
+/-- **induction over the history of a run**: a predicate `J H s` of the list `H` of steps taken so far and the
+current state `s`, preserved when a step is appended, holds at the end of the run with `H` extended by the
+steps of the run -/
+theorem hist_run (p : Params K) (J : List (Ev K V) → St K V → Prop)
+    (hstep : ∀ H s t c s', Reach p s → J H s → step p s t c = some s' → J (H ++ [⟨s, t, c, s'⟩]) s')
+    (sched : List (Tid × Choice K V)) (s s' : St K V) (H : List (Ev K V)) (hreach : Reach p s) (h : J H s)
+    (hr : run p s sched = some s') : J (H ++ events p s sched) s' := by
+  induction sched generalizing s H with
+  | nil => simp only [run, Option.some.injEq] at hr; subst hr; simpa [events] using h
+  | cons a rest ih =>
+    obtain ⟨t, c⟩ := a
+    simp only [run] at hr
+    split at hr
+    · rename_i s1 heq
+      have := ih s1 (H ++ [⟨s, t, c, s1⟩]) (reach_step p s s1 t c hreach heq) (hstep H s t c s1 hreach h heq) hr
+      simpa [events, heq] using this
+    · simp at hr
+
+/-- every recorded step is a step of the model from a reachable state -/
+theorem events_sound (p : Params K) (sched : List (Tid × Choice K V)) (s : St K V) (hreach : Reach p s) :
+    ∀ e ∈ events p s sched, Reach p e.pre ∧ step p e.pre e.tid e.ch = some e.post := by
+  induction sched generalizing s with
+  | nil => intro e he; simp [events] at he
+  | cons a rest ih =>
+    obtain ⟨t, c⟩ := a
+    intro e he
+    simp only [events] at he
+    split at he
+    · rename_i s1 heq
+      rcases List.mem_cons.mp he with rfl | he
+      · exact ⟨hreach, heq⟩
+      · exact ih s1 (reach_step p s s1 t c hreach heq) e he
+    · simp at he
+
+/-- the state before a recorded step is one of the visited states -/
+theorem pre_mem_trace (p : Params K) (sched : List (Tid × Choice K V)) (s : St K V) :
+    ∀ e ∈ events p s sched, e.pre ∈ trace p s sched := by
+  induction sched generalizing s with
+  | nil => intro e he; simp [events] at he
+  | cons a rest ih =>
+    obtain ⟨t, c⟩ := a
+    intro e he
+    simp only [events] at he
+    split at he
+    · rename_i s1 heq
+      rcases List.mem_cons.mp he with rfl | he
+      · simp [trace]
+      · have := ih s1 e he
+        simp only [trace, events, heq, List.map_cons, List.mem_cons] at this ⊢
+        rcases this with h | h
+        · exact Or.inr (Or.inl h)
+        · exact Or.inr (Or.inr h)
+    · simp at he
+
+/-- the final state of a run is one of the visited states -/
+theorem last_mem_trace (p : Params K) (sched : List (Tid × Choice K V)) (s s' : St K V)
+    (hr : run p s sched = some s') : s' ∈ trace p s sched := by
+  induction sched generalizing s with
+  | nil => simp only [run, Option.some.injEq] at hr; subst hr; simp [trace]
+  | cons a rest ih =>
+    obtain ⟨t, c⟩ := a
+    simp only [run] at hr
+    split at hr
+    · rename_i s1 heq
+      have := ih s1 hr
+      simp only [trace, events, heq, List.map_cons, List.mem_cons] at this ⊢
+      exact Or.inr this
+    · simp at hr
+
+theorem run_append (p : Params K) (pre mid : List (Tid × Choice K V)) (s s0 : St K V)
+    (h0 : run p s pre = some s0) : run p s (pre ++ mid) = run p s0 mid := by
+  induction pre generalizing s with
+  | nil => simp only [run, Option.some.injEq] at h0; subst h0; rfl
+  | cons a rest ih =>
+    obtain ⟨t, c⟩ := a
+    simp only [run, List.cons_append] at h0 ⊢
+    cases heq : step p s t c with
+    | none => simp [heq] at h0
+    | some s1 => simp only [heq] at h0 ⊢; exact ih s1 h0
+
+theorem events_append (p : Params K) (pre mid : List (Tid × Choice K V)) (s s0 : St K V)
+    (h0 : run p s pre = some s0) : events p s (pre ++ mid) = events p s pre ++ events p s0 mid := by
+  induction pre generalizing s with
+  | nil => simp only [run, Option.some.injEq] at h0; subst h0; rfl
+  | cons a rest ih =>
+    obtain ⟨t, c⟩ := a
+    simp only [run] at h0
+    split at h0
+    · rename_i s1 heq
+      simp only [events, List.cons_append, heq]
+      rw [ih s1 h0]
+    · simp at h0
+
+theorem events_length (p : Params K) (sched : List (Tid × Choice K V)) (s s' : St K V)
+    (hr : run p s sched = some s') : (events p s sched).length = sched.length := by
+  induction sched generalizing s with
+  | nil => rfl
+  | cons a rest ih =>
+    obtain ⟨t, c⟩ := a
+    simp only [run] at hr
+    split at hr
+    · rename_i s1 heq
+      simp only [events, heq, List.length_cons, ih s1 hr]
+    · simp at hr
+
+/-- the states visited during the second part of a schedule (its start included) are the states visited by the
+whole schedule after the first `pre.length` ones -/
+theorem states_drop (p : Params K) (pre mid : List (Tid × Choice K V)) (s0 : St K V)
+    (h0 : run p (init p) pre = some s0) :
+    (states (V := V) p (pre ++ mid)).drop pre.length = (trace p s0 mid).map (·.g) := by
+  have hlen := events_length p pre _ _ h0
+  have hlast : ∀ (sched : List (Tid × Choice K V)) (s s1 : St K V), run p s sched = some s1 →
+      (trace p s sched).drop sched.length = [s1] := by
+    intro sched
+    induction sched with
+    | nil => intro s s1 h; simp only [run, Option.some.injEq] at h; subst h; rfl
+    | cons a rest ih =>
+      intro s s1 h
+      obtain ⟨t, c⟩ := a
+      simp only [run] at h
+      split at h
+      · rename_i s2 heq
+        have := ih s2 s1 h
+        simpa [trace, events, heq] using this
+      · simp at h
+  have h1 := hlast pre _ _ h0
+  unfold states
+  rw [← List.map_drop]
+  congr 1
+  simp only [trace, events_append p pre mid _ _ h0, List.map_append] at h1 ⊢
+  have h2 : (init p :: List.map (·.post) (events p (init p) pre)).length = pre.length + 1 := by
+    simp [hlen]
+  rw [← List.cons_append, List.drop_append, h1]
+  simp [hlen]
+
+theorem step_def (p : Params K) (s s' : St K V) (t : Tid) (c : Choice K V) (hs : step p s t c = some s') :
+    tstep p t s.g (s.l t) c = some (s'.g, s'.l t) ∧ ∀ u, u ≠ t → s'.l u = s.l u := by
+  unfold step at hs
+  split at hs
+  · simp at hs
+  · rename_i g' l' heq
+    simp only [Option.some.injEq] at hs; subst hs
+    exact ⟨by simpa using heq, fun u hu => by simp [hu]⟩
+
+/-- thread `t` takes no return step among the recorded steps -/
+def NoRet (t : Tid) (H : List (Ev K V)) : Prop := ∀ e ∈ H, e.tid = t → (e.pre.l t).pc ≠ .ret
+
+/-- **(1d)** once the result of a writer is fixed (after its commit or its `loadIfExists` hit under the lock),
+`result` does not change until the thread executes its return step — through the unlock, the counter update,
+the shrink attempt with its nested `resize`/`waitForResize` — so the value returned is the value fixed at the
+linearization point -/
+theorem result_stable (p : Params K) (s s' : St K V) (hreach : Reach p s) (t : Tid)
+    (hf : fixedPc (s.l t) ∨ (s.l t).pc = .ret) (sched : List (Tid × Choice K V))
+    (hr : run p s sched = some s') (hn : NoRet t (events p s sched)) :
+    (fixedPc (s'.l t) ∨ (s'.l t).pc = .ret) ∧ (s'.l t).result = (s.l t).result ∧ (s'.l t).op = (s.l t).op := by
+  have key := hist_run p
+    (fun H x => NoRet t H → (fixedPc (x.l t) ∨ (x.l t).pc = .ret) ∧ (x.l t).result = (s.l t).result ∧ (x.l t).op = (s.l t).op)
+    ?_ sched s s' [] hreach (fun _ => ⟨hf, rfl, rfl⟩) hr
+  · exact key (by simpa using hn)
+  · intro H x u c x' hx hJ hs hnr
+    have hnH : NoRet t H := fun e he => hnr e (List.mem_append_left _ he)
+    obtain ⟨h1, h2, h3⟩ := hJ hnH
+    obtain ⟨hts, hoth⟩ := step_def p x x' u c hs
+    by_cases hu : u = t
+    · subst hu
+      have hpc : (x.l u).pc ≠ .ret := hnr ⟨x, u, c, x'⟩ (by simp) rfl
+      have hfx : fixedPc (x.l u) := by
+        rcases h1 with h | h
+        · exact h
+        · exact absurd h hpc
+      obtain ⟨e1, e2, e3⟩ := fixed_step p u x.g (x.l u) c x'.g (x'.l u) ((inv_reach p x hx).2 u).wf hfx hts
+      exact ⟨e3, by rw [e1, h2], by rw [e2, h3]⟩
+    · rw [hoth t (Ne.symm hu)]; exact ⟨h1, h2, h3⟩
+
+/-! ## part: Level 2 — the helping step of `Clear` -/
+
+/-- a writer past both re-checks (`resizing`, `cur`) that has not committed yet -/
+def past2 : Pc → Bool
+  | .dcScan | .dcFn | .dcCommit => true
+  | _ => false
+
+theorem past2_pastChk (pc : Pc) (h : past2 pc = true) : pastChk pc = true := by
+  revert h; cases pc <;> simp [past2, pastChk]
+
+theorem past2_facts (pc : Pc) (h : past2 pc = true) :
+    pastChk pc = true ∧ hasBi pc = true ∧ inDc pc = true ∧ usesTbl pc = true ∧ isResizer pc = false := by
+  revert h; cases pc <;> simp [past2, pastChk, hasBi, inDc, usesTbl, isResizer]
+
+theorem pastChk_facts (pc : Pc) (h : pastChk pc = true) :
+    hasBi pc = true ∧ inDc pc = true ∧ usesTbl pc = true ∧ isResizer pc = false := by
+  revert h; cases pc <;> simp [pastChk, hasBi, inDc, usesTbl, isResizer]
+
+/-- a writer inside `doCompute` has a key -/
+theorem dc_key (l : L K V) (hw : WF l) (h : inDc l.pc = true) : ∃ k, opKey l = some k := by
+  have := isDcOp_key l.op (hw.dcop h)
+  rw [← opKey_eq] at this
+  cases hk : opKey l with
+  | none => simp [hk] at this
+  | some k => exact ⟨k, rfl⟩
+
+/-- **(2a)** while a grow/shrink is about to publish its new table, no writer is past its checks on the table
+being retired: all root buckets have been copied (`LD.full`), a writer past its checks holds a bucket that has
+not been copied (`Pair`), and its bucket index is below the length of the table (`LD.bkt`) -/
+theorem no_writer_past_checks_at_resize_publish (p : Params K) (hmin : 0 < p.minLen) (s : St K V) (h : Reach p s)
+    (r u : Tid) (hpc : (s.l r).pc = .rzPublish) (hh : (s.l r).hint ≠ .clear)
+    (hu : pastChk (s.l u).pc = true) : (s.l u).tbl ≠ (s.l r).rtbl ∧ (s.l u).tbl ≠ s.g.cur := by
+  have hd := dinv_reach p hmin s h
+  have hi := inv_reach p s h
+  have hrc : (s.l r).rtbl = s.g.cur := (hd.ld r).rcur (Or.inr hpc)
+  suffices hne : (s.l u).tbl ≠ (s.l r).rtbl from ⟨hne, by rw [← hrc]; exact hne⟩
+  intro he
+  have hcc : copyC (s.l r) = some (s.l r).ci := by simp [copyC, hpc, hh]
+  have h1 := hd.pair r u _ hcc hu he
+  have h2 := (hd.ld r).full hpc hh
+  obtain ⟨hb, hdc, -, -⟩ := pastChk_facts _ hu
+  obtain ⟨k, hk⟩ := dc_key _ (hi.2 u).wf hdc
+  have h3 := (hd.ld u).bkt hb k hk
+  have h4 : bucketOf p s.g (s.l u).tbl k < (s.g.tables (s.l u).tbl).len := Nat.mod_lt _ (hd.gd.lenPos _)
+  rw [he] at h3 h4
+  omega
+
+/-- `cur` moves only at the publish step of a resize -/
+theorem cur_step (p : Params K) (t : Tid) (g : G K V) (l : L K V) (c : Choice K V) (g' : G K V) (l' : L K V)
+    (hs : tstep p t g l c = some (g', l')) : g'.cur = g.cur ∨ (l.pc = .rzPublish ∧ g'.cur = l.newT) := by
+  cases hpc : l.pc <;> simp only [tstep, hpc] at hs <;> (repeat' split at hs) <;>
+    simp only [Option.some.injEq, reduceCtorEq, Prod.mk.injEq] at hs <;> obtain ⟨rfl, -⟩ := hs <;> simp [setTbl]
+
+/-- how a thread gets past both checks: from `dcChkTable`, having seen its table current; afterwards it keeps
+its table, bucket and call, and changes nothing shared, until the commit -/
+theorem past2_step (p : Params K) (t : Tid) (g : G K V) (l : L K V) (c : Choice K V) (g' : G K V) (l' : L K V)
+    (hs : tstep p t g l c = some (g', l')) (h : past2 l'.pc = true) :
+    l'.tbl = l.tbl ∧ l'.op = l.op ∧ l'.bi = l.bi ∧ g' = g ∧
+      ((past2 l.pc = true ∧ l.pc ≠ .dcCommit) ∨ (l.pc = .dcChkTable ∧ g.cur = l.tbl)) := by
+  have hP := popCont_pc_ne l
+  have hS := fun l op => (startOp_pc_ne (K := K) (V := V) l op)
+  cases hpc : l.pc <;> simp only [tstep, hpc] at hs <;> (repeat' split at hs) <;>
+    simp only [Option.some.injEq, reduceCtorEq, Prod.mk.injEq] at hs <;> obtain ⟨rfl, rfl⟩ := hs <;>
+    simp_all [past2, callResize, callWait]
+
+/-- **(2a, step form)** the step that retires the table of a writer past its checks is the publish step of a
+`Clear` (never of a grow/shrink), taken by another thread -/
+theorem retire_step_is_clear (p : Params K) (hmin : 0 < p.minLen) (s : St K V) (h : Reach p s) (t u : Tid)
+    (c : Choice K V) (g' : G K V) (l' : L K V) (hs : tstep p t s.g (s.l t) c = some (g', l'))
+    (hu : pastChk (s.l u).pc = true) (htbl : (s.l u).tbl = s.g.cur) (hne : g'.cur ≠ s.g.cur) :
+    (s.l t).pc = .rzPublish ∧ (s.l t).hint = .clear ∧ t ≠ u := by
+  rcases cur_step p t s.g (s.l t) c g' l' hs with e | ⟨hpc, -⟩
+  · exact absurd e hne
+  · refine ⟨hpc, ?_, ?_⟩
+    · refine Classical.byContradiction fun hh => ?_
+      exact (no_writer_past_checks_at_resize_publish p hmin s h t u hpc hh hu).2 htbl
+    · intro e; subst e; rw [hpc] at hu; cases hu
+
+/-- a step changes the binding of key `k` in a published table generation `T` only if it is the commit of a
+writer on `T` whose key is `k` -/
+theorem data_key_step (p : Params K) (hmin : 0 < p.minLen) (s : St K V) (h : Reach p s) (t : Tid)
+    (c : Choice K V) (g' : G K V) (l' : L K V) (hs : tstep p t s.g (s.l t) c = some (g', l'))
+    (T : Nat) (hT : T ≤ s.g.cur) (k : K) :
+    (g'.tables T).data.get k = (s.g.tables T).data.get k ∨
+      ((s.l t).pc = .dcCommit ∧ (s.l t).tbl = T ∧ opKey (s.l t) = some k) := by
+  have hdi := dinv_reach p hmin s h
+  have hd := hdi.ld t
+  have hg := (inv_reach p s h).1
+  by_cases h1 : (s.l t).pc = .dcCommit
+  · obtain ⟨k0, nv, del, hk0, -⟩ := commit_shape p t s.g (s.l t) c g' l' h1 hs
+    obtain ⟨-, -, -, hoth, hkey, -⟩ := commit_frame p t s.g (s.l t) c g' l' h1 hs k0 hk0
+    by_cases hTe : T = (s.l t).tbl
+    · by_cases hk : k = k0
+      · subst hk; exact Or.inr ⟨h1, hTe.symm, hk0⟩
+      · subst hTe; exact Or.inl (hkey k hk)
+    · exact Or.inl (by rw [hoth T hTe])
+  left
+  by_cases h2 : (s.l t).pc = .rzDecide
+  · obtain ⟨-, -, -, -, -, hcase⟩ := decide_shape p t s.g (s.l t) c g' l' hmin (hdi.gd.lenPos _) h2 hs
+    rcases hcase with ⟨e, -⟩ | ⟨len, -, hc, -, -, hoth, -, -⟩
+    · rw [e]
+    · have := hg.2
+      rw [hoth _ (by omega)]
+  by_cases h3 : (s.l t).pc = .rzCopyDo
+  · have hgt : s.g.cur < (s.l t).newT := hd.newGt (by rw [h3]; rfl)
+    simp only [tstep, h3, Option.some.injEq, Prod.mk.injEq] at hs
+    obtain ⟨rfl, -⟩ := hs
+    simp only [setTbl, if_neg (show T ≠ (s.l t).newT by omega)]
+  by_cases h4 : (s.l t).pc = .rzPublish
+  · simp only [tstep, h4, Option.some.injEq, Prod.mk.injEq] at hs
+    obtain ⟨rfl, -⟩ := hs
+    rfl
+  · obtain ⟨-, hsame⟩ := quiet_sameD p t s.g (s.l t) c g' l' h1 h2 h3 h4 hs
+    rw [(hsame _).2]
+
+/-- **(2c)** two distinct writers past their checks on the same table generation hold distinct root buckets,
+hence work on distinct keys: the writers helped by one `Clear` commute -/
+theorem helped_keys_distinct (p : Params K) (hmin : 0 < p.minLen) (s : St K V) (h : Reach p s) (t u : Tid)
+    (hne : t ≠ u) (ht : pastChk (s.l t).pc = true) (hu : pastChk (s.l u).pc = true)
+    (htbl : (s.l t).tbl = (s.l u).tbl) :
+    (s.l t).bi ≠ (s.l u).bi ∧ ∀ k1 k2, opKey (s.l t) = some k1 → opKey (s.l u) = some k2 → k1 ≠ k2 := by
+  have hd := dinv_reach p hmin s h
+  have hbi : (s.l t).bi ≠ (s.l u).bi := by
+    intro e
+    refine hne (mutex p s h t u (s.l t).tbl (s.l t).bi (holds_pastChk _ ht) ?_)
+    rw [holds_pastChk _ hu, htbl, e]
+  refine ⟨hbi, fun k1 k2 h1 h2 e => hbi ?_⟩
+  subst e
+  rw [(hd.ld t).bkt (pastChk_facts _ ht).1 k1 h1, (hd.ld u).bkt (pastChk_facts _ hu).1 k1 h2, htbl]
+
+/-- while a writer is past its checks (it holds the lock of the root bucket of its key), no other thread changes
+the binding of its key in its table generation — whether that generation is current or retired -/
+theorem locked_key_stable (p : Params K) (hmin : 0 < p.minLen) (s : St K V) (h : Reach p s) (t u : Tid)
+    (hne : t ≠ u) (c : Choice K V) (g' : G K V) (l' : L K V) (hs : tstep p t s.g (s.l t) c = some (g', l'))
+    (hu : pastChk (s.l u).pc = true) (k : K) (hk : opKey (s.l u) = some k) :
+    (g'.tables (s.l u).tbl).data.get k = (s.g.tables (s.l u).tbl).data.get k := by
+  have hd := dinv_reach p hmin s h
+  rcases data_key_step p hmin s h t c g' l' hs (s.l u).tbl (hd.ld u).tblLe k with e | ⟨h1, h2, h3⟩
+  · exact e
+  · exact absurd rfl ((helped_keys_distinct p hmin s h t u hne (by rw [h1]; rfl) hu h2).2 k k h3 hk)
+
+/-- **(2b)** a commit into a retired table generation is invisible: the abstract content does not change -/
+theorem commit_on_retired_invisible (p : Params K) (t : Tid) (g : G K V) (l : L K V) (c : Choice K V)
+    (g' : G K V) (l' : L K V) (hpc : l.pc = .dcCommit) (htbl : l.tbl ≠ g.cur)
+    (hs : tstep p t g l c = some (g', l')) : ∀ k, absGet g' k = absGet g k := by
+  obtain ⟨k0, nv, del, hk0, -⟩ := commit_shape p t g l c g' l' hpc hs
+  obtain ⟨hc, -, -, hoth, -, -⟩ := commit_frame p t g l c g' l' hpc hs k0 hk0
+  intro k; unfold absGet; rw [hc, hoth _ (Ne.symm htbl)]
+
+/-- shape of the step at `dcFn` -/
+theorem fn_step (p : Params K) (t : Tid) (g : G K V) (l : L K V) (c : Choice K V) (g' : G K V) (l' : L K V)
+    (hpc : l.pc = .dcFn) (hs : tstep p t g l c = some (g', l')) :
+    g' = g ∧ l'.pc = .dcCommit ∧ l'.old = l.old ∧ l'.tbl = l.tbl ∧ l'.op = l.op ∧ l'.result = l.result := by
+  simp only [tstep, hpc] at hs
+  split at hs <;> simp only [Option.some.injEq, reduceCtorEq, Prod.mk.injEq] at hs
+  obtain ⟨rfl, rfl⟩ := hs
+  exact ⟨rfl, rfl, rfl, rfl, rfl, rfl⟩
+
+/-- **(2b)** a writer at `dcFn`/`dcCommit`, on any table generation (current or retired): `old` is the binding of
+its key in its table; if the table is current, `old` is the abstract binding (so at the instant of a `Clear`
+publish the writer can be linearized immediately before the `Clear`); its commit installs
+`(specDc f lie co old).1` in its own table and returns the value/flag of `specDc f lie co old` -/
+theorem helped_result (p : Params K) (hmin : 0 < p.minLen) (s : St K V) (h : Reach p s) (u : Tid)
+    (k : K) (f : Option V → V × Bool) (lie co : Bool) (hop : (s.l u).op = some (.dc k f lie co))
+    (hpc : (s.l u).pc = .dcFn ∨ (s.l u).pc = .dcCommit) :
+    (s.l u).old = (s.g.tables (s.l u).tbl).data.get k ∧
+    ((s.l u).tbl = s.g.cur → (s.l u).old = absGet s.g k) ∧
+    (∀ c g' l', tstep p u s.g (s.l u) c = some (g', l') →
+      ((s.l u).pc = .dcFn → g' = s.g ∧ l'.pc = .dcCommit ∧ l'.old = (s.l u).old ∧ l'.tbl = (s.l u).tbl ∧
+          l'.op = (s.l u).op) ∧
+      ((s.l u).pc = .dcCommit →
+        (g'.tables (s.l u).tbl).data.get k = (specDc f lie co (s.l u).old).1 ∧
+        l'.result = some (.val (specDc f lie co (s.l u).old).2.1 (specDc f lie co (s.l u).old).2.2) ∧
+        ((s.l u).tbl ≠ s.g.cur → ∀ k', absGet g' k' = absGet s.g k'))) := by
+  have hold := ((dinv_reach p hmin s h).ld u).old hpc k (by simp [opKey, hop])
+  refine ⟨hold, fun e => by rw [hold, e]; rfl, fun c g' l' hs => ⟨fun h1 => ?_, fun h1 => ?_⟩⟩
+  · obtain ⟨e1, e2, e3, e4, e5, -⟩ := fn_step p u s.g (s.l u) c g' l' h1 hs
+    exact ⟨e1, e2, e3, e4, e5⟩
+  · obtain ⟨f1, f2, f3⟩ := commit_facts p hmin s h u k f lie co hop h1
+    obtain ⟨e1, e2, -⟩ := commit_step_spec p u s.g (s.l u) c g' l' k f lie co hop h1 f1 f2 f3 hs
+    exact ⟨e1, e2, fun hne => commit_on_retired_invisible p u s.g (s.l u) c g' l' h1 hne hs⟩
+
+/-! ## part: Level 3 — hindsight for lookups across table generations (history invariants) -/
+
+/-- table generation `T` was the current one in the state before one of the recorded steps -/
+def WasCurH (H : List (Ev K V)) (T : Nat) : Prop := ∃ e ∈ H, e.pre.g.cur = T
+
+/-- table generation `T` is current, or was current in the state before one of the recorded steps -/
+def WasCur (H : List (Ev K V)) (s : St K V) (T : Nat) : Prop := T = s.g.cur ∨ WasCurH H T
+
+/-- the recorded step `e` is the publish step of a `Clear`, and in the state before it thread `u` is a writer
+`doCompute k f lie co` past both its checks on the table being retired: `Clear` helps `u`, which is linearized
+immediately before the `Clear` -/
+def HelpAt (e : Ev K V) (u : Tid) (k : K) (f : Option V → V × Bool) (lie co : Bool) : Prop :=
+  (e.pre.l e.tid).pc = .rzPublish ∧ (e.pre.l e.tid).hint = .clear ∧
+  past2 (e.pre.l u).pc = true ∧ (e.pre.l u).tbl = e.pre.g.cur ∧ (e.pre.l u).op = some (.dc k f lie co)
+
+/-- `v` is a legal answer of a lookup of `k` whose call covers the recorded steps `H` and the current state `s`:
+the abstract binding of `k` in a visited state, or the binding installed by a writer helped by a recorded `Clear`
+(the abstract binding in the virtual state between the linearization of that writer and the `Clear`) -/
+def Wit (H : List (Ev K V)) (s : St K V) (k : K) (v : Option V) : Prop :=
+  absGet s.g k = v ∨ (∃ e ∈ H, absGet e.pre.g k = v) ∨
+  (∃ e ∈ H, ∃ u f lie co, HelpAt e u k f lie co ∧ v = (specDc f lie co (absGet e.pre.g k)).1)
+
+theorem wit_mono (H : List (Ev K V)) (s s' : St K V) (k : K) (v : Option V) (ev : Ev K V) (hpre : ev.pre = s)
+    (h : Wit H s k v) : Wit (H ++ [ev]) s' k v := by
+  rcases h with h | ⟨e, he, h⟩ | ⟨e, he, h⟩
+  · exact Or.inr (Or.inl ⟨ev, by simp, by rw [hpre]; exact h⟩)
+  · exact Or.inr (Or.inl ⟨e, List.mem_append_left _ he, h⟩)
+  · exact Or.inr (Or.inr ⟨e, List.mem_append_left _ he, h⟩)
+
+theorem wasCur_mono (H : List (Ev K V)) (s s' : St K V) (T : Nat) (ev : Ev K V) (hpre : ev.pre = s)
+    (h : WasCur H s T) : WasCur (H ++ [ev]) s' T := by
+  rcases h with h | ⟨e, he, h⟩
+  · exact Or.inr ⟨ev, by simp, by rw [hpre]; exact h.symm⟩
+  · exact Or.inr ⟨e, List.mem_append_left _ he, h⟩
+
+/-- `cur` never decreases -/
+theorem cur_le_step (p : Params K) (hmin : 0 < p.minLen) (s : St K V) (h : Reach p s) (t : Tid)
+    (c : Choice K V) (g' : G K V) (l' : L K V) (hs : tstep p t s.g (s.l t) c = some (g', l')) :
+    s.g.cur ≤ g'.cur := by
+  rcases cur_step p t s.g (s.l t) c g' l' hs with e | ⟨hpc, e⟩
+  · omega
+  · have := ((dinv_reach p hmin s h).ld t).newGt (by rw [hpc]; rfl); omega
+
+theorem dc_op_of_key (l : L K V) (hw : WF l) (h : inDc l.pc = true) (k : K) (hk : opKey l = some k) :
+    ∃ f lie co, l.op = some (.dc k f lie co) := by
+  obtain ⟨k0, f, lie, co, hop⟩ := isDcOp_cases l.op (hw.dcop h)
+  have : k0 = k := by simpa [opKey, hop] using hk
+  subst this
+  exact ⟨f, lie, co, hop⟩
+
+theorem opKey_congr (l l' : L K V) (h : l'.op = l.op) : opKey l' = opKey l := by
+  rw [opKey_eq, opKey_eq, h]
+
+/-- **the history invariant of the retired table generations**, for one key `k`.  For every table generation `T`
+that was current at a recorded step and is retired now:
+* `r1`: the binding of `k` in `T` is a legal answer (`Wit`): the abstract binding of a visited state, or the binding
+  installed by a writer helped by a recorded `Clear`;
+* `r2`: every writer of `k` still past its checks on `T` was helped by the recorded `Clear` publish that retired
+  `T`, and the binding of `k` in `T` is still the abstract binding at that publish (nobody else can touch it: the
+  writer holds the bucket lock).  In particular `T` was not retired by a grow/shrink. -/
+structure TabInv (k : K) (H : List (Ev K V)) (s : St K V) : Prop where
+  mono : ∀ e ∈ H, e.pre.g.cur ≤ s.g.cur
+  r1 : ∀ T, T ≠ s.g.cur → WasCurH H T → Wit H s k ((s.g.tables T).data.get k)
+  r2 : ∀ T, T ≠ s.g.cur → WasCurH H T → ∀ u, past2 (s.l u).pc = true → (s.l u).tbl = T → opKey (s.l u) = some k →
+    ∃ e ∈ H, ∃ f lie co, HelpAt e u k f lie co ∧ e.pre.g.cur = T ∧ (s.l u).op = some (.dc k f lie co) ∧
+      (s.g.tables T).data.get k = absGet e.pre.g k
+
+theorem tabinv_nil (k : K) (s : St K V) : TabInv k [] s :=
+  ⟨fun e he => (by cases he), fun T _ hw => (by obtain ⟨e, he, -⟩ := hw; cases he),
+   fun T _ hw => (by obtain ⟨e, he, -⟩ := hw; cases he)⟩
+
+theorem tabinv_step (p : Params K) (hmin : 0 < p.minLen) (k : K) (H : List (Ev K V)) (s : St K V) (t : Tid)
+    (c : Choice K V) (s' : St K V) (hreach : Reach p s) (hJ : TabInv k H s) (hs : step p s t c = some s') :
+    TabInv k (H ++ [⟨s, t, c, s'⟩]) s' := by
+  obtain ⟨hts, hoth⟩ := step_def p s s' t c hs
+  have hcle := cur_le_step p hmin s hreach t c _ _ hts
+  have hi := inv_reach p s hreach
+  have hmem : ∀ e, e ∈ H ++ [(⟨s, t, c, s'⟩ : Ev K V)] → e ∈ H ∨ e = ⟨s, t, c, s'⟩ := by
+    intro e he; simpa using he
+  have hwas : ∀ T, T ≠ s.g.cur → WasCurH (H ++ [(⟨s, t, c, s'⟩ : Ev K V)]) T → WasCurH H T := by
+    intro T hT hw
+    obtain ⟨e, he, hc⟩ := hw
+    rcases hmem e he with h | rfl
+    · exact ⟨e, h, hc⟩
+    · exact absurd hc.symm hT
+  have hle : ∀ T, WasCurH (H ++ [(⟨s, t, c, s'⟩ : Ev K V)]) T → T ≤ s.g.cur := by
+    intro T hw
+    obtain ⟨e, he, hc⟩ := hw
+    rcases hmem e he with h | rfl
+    · rw [← hc]; exact hJ.mono e h
+    · rw [← hc]; exact Nat.le_refl _
+  refine ⟨?_, ?_, ?_⟩
+  · intro e he
+    rcases hmem e he with h | rfl
+    · exact Nat.le_trans (hJ.mono e h) hcle
+    · exact hcle
+  · intro T hT hw
+    have hTle := hle T hw
+    rcases data_key_step p hmin s hreach t c s'.g (s'.l t) hts T hTle k with hsame | ⟨hpc, htbl, hkey⟩
+    · rw [hsame]
+      by_cases hTc : T = s.g.cur
+      · subst hTc
+        exact Or.inr (Or.inl ⟨⟨s, t, c, s'⟩, by simp, rfl⟩)
+      · exact wit_mono H s s' k _ _ rfl (hJ.r1 T hTc (hwas T hTc hw))
+    · have hcur : s'.g.cur = s.g.cur := by
+        rcases cur_step p t s.g (s.l t) c _ _ hts with e | ⟨e, -⟩
+        · exact e
+        · rw [hpc] at e; cases e
+      have hTc : T ≠ s.g.cur := by rw [← hcur]; exact hT
+      obtain ⟨e, he, f, lie, co, hhelp, -, hop, hdata⟩ :=
+        hJ.r2 T hTc (hwas T hTc hw) t (by rw [hpc]; rfl) htbl hkey
+      obtain ⟨f1, f2, f3⟩ := commit_facts p hmin s hreach t k f lie co hop hpc
+      obtain ⟨e1, -⟩ := commit_step_spec p t s.g (s.l t) c _ _ k f lie co hop hpc f1 f2 f3 hts
+      refine Or.inr (Or.inr ⟨e, List.mem_append_left _ he, t, f, lie, co, hhelp, ?_⟩)
+      rw [← htbl, e1, f2, htbl, hdata]
+  · intro T hT hw u hu htbl hkey
+    have hTle := hle T hw
+    by_cases hTc : T = s.g.cur
+    · have hne : s'.g.cur ≠ s.g.cur := by rw [← hTc]; exact fun e => hT e.symm
+      have hut : u ≠ t := by
+        intro e; subst e
+        have := (past2_step p u s.g (s.l u) c s'.g (s'.l u) hts hu).2.2.2.1
+        exact hne (by rw [this])
+      rw [hoth u hut] at hu htbl hkey
+      obtain ⟨hpc, hh, -⟩ := retire_step_is_clear p hmin s hreach t u c _ _ hts (past2_pastChk _ hu)
+        (by rw [htbl, hTc]) hne
+      obtain ⟨f, lie, co, hop⟩ := dc_op_of_key _ (hi.2 u).wf (past2_facts _ hu).2.2.1 k hkey
+      refine ⟨⟨s, t, c, s'⟩, by simp, f, lie, co, ⟨hpc, hh, hu, by rw [htbl, hTc], hop⟩, hTc.symm,
+        by rw [hoth u hut]; exact hop, ?_⟩
+      rcases data_key_step p hmin s hreach t c s'.g (s'.l t) hts T hTle k with hsame | ⟨hpc', -⟩
+      · rw [hsame, hTc]; rfl
+      · rw [hpc] at hpc'; cases hpc'
+    · have hw' := hwas T hTc hw
+      by_cases hut : u = t
+      · subst hut
+        obtain ⟨e1, e2, e3, e4, hcase⟩ := past2_step p u s.g (s.l u) c s'.g (s'.l u) hts hu
+        rcases hcase with ⟨hp2, -⟩ | ⟨-, hcur⟩
+        · obtain ⟨e, he, f, lie, co, hhelp, hcur, hop, hdata⟩ :=
+            hJ.r2 T hTc hw' u hp2 (by rw [← e1]; exact htbl) (by rw [← opKey_congr _ _ e2]; exact hkey)
+          exact ⟨e, List.mem_append_left _ he, f, lie, co, hhelp, hcur, by rw [e2]; exact hop,
+            by rw [e4]; exact hdata⟩
+        · exact absurd (by rw [hcur, ← e1, htbl]) hTc
+      · rw [hoth u hut] at hu htbl hkey ⊢
+        obtain ⟨e, he, f, lie, co, hhelp, hcur, hop, hdata⟩ := hJ.r2 T hTc hw' u hu htbl hkey
+        refine ⟨e, List.mem_append_left _ he, f, lie, co, hhelp, hcur, hop, ?_⟩
+        rw [← htbl, locked_key_stable p hmin s hreach t u (Ne.symm hut) c _ _ hts (past2_pastChk _ hu) k hkey,
+          htbl]
+        exact hdata
+
+theorem popContAux_op (l : L K V) : (popCont.popContAux l).op = l.op := by
+  unfold popCont.popContAux; split <;> rfl
+
+theorem popCont_op (l : L K V) : (popCont l).op = l.op := by
+  unfold popCont; split <;> (try split) <;> (try rfl)
+  exact popContAux_op _
+
+theorem startOp_op (l : L K V) (op : POp K V) : (startOp l op).op = some op := by
+  rcases op with _ | ⟨_, _, _ | _, _⟩ | _ | _ | _ <;> rfl
+
+theorem startOp_load (l : L K V) (op : POp K V) (k : K) (h : (startOp l op).op = some (.load k)) :
+    (startOp l op).pc = .ldTable := by
+  rw [startOp_op] at h; cases h; rfl
+
+/-- a `Load` call is at one of its three pcs -/
+def LoadPc (l : L K V) : Prop := ∀ k, l.op = some (.load k) → l.pc = .ldTable ∨ l.pc = .ldRead ∨ l.pc = .ret
+
+theorem loadPc_step (p : Params K) (t : Tid) (g : G K V) (l : L K V) (c : Choice K V) (g' : G K V) (l' : L K V)
+    (h : LoadPc l) (hs : tstep p t g l c = some (g', l')) : LoadPc l' := by
+  intro k hop
+  have hP := popCont_op l
+  have hS := fun l op => startOp_load (K := K) (V := V) l op k
+  unfold LoadPc at h
+  cases hpc : l.pc <;> simp only [tstep, hpc] at hs <;> (repeat' split at hs) <;>
+    simp only [Option.some.injEq, reduceCtorEq, Prod.mk.injEq] at hs <;> obtain ⟨-, rfl⟩ := hs <;>
+    simp_all [callResize, callWait] <;> exact absurd hP.symm (h k)
+
+theorem loadPc_reach (p : Params K) (s : St K V) (h : Reach p s) (u : Tid) : LoadPc (s.l u) :=
+  local_reach p LoadPc (fun k hk => by cases hk) (loadPc_step p) s h u
+
+/-- a `Load` call reaches its return only through the read step -/
+theorem ret_entry_load (p : Params K) (t : Tid) (g : G K V) (l : L K V) (c : Choice K V) (g' : G K V) (l' : L K V)
+    (h : LoadPc l) (hs : tstep p t g l c = some (g', l')) (hpc' : l'.pc = .ret) (k : K)
+    (hop' : l'.op = some (.load k)) : l.pc = .ldRead ∧ l.op = some (.load k) := by
+  have hP := popCont_op l
+  have hS := fun l op => (startOp_pc_ne (K := K) (V := V) l op).2.2.2.2.2
+  unfold LoadPc at h
+  cases hpc : l.pc <;> simp only [tstep, hpc] at hs <;> (repeat' split at hs) <;>
+    simp only [Option.some.injEq, reduceCtorEq, Prod.mk.injEq] at hs <;> obtain ⟨-, rfl⟩ := hs <;>
+    simp_all [callResize, callWait] <;> exact absurd hP.symm (h k)
+
+/-- the read pc is entered with the current table loaded -/
+theorem read_entry (p : Params K) (t : Tid) (g : G K V) (l : L K V) (c : Choice K V) (g' : G K V) (l' : L K V)
+    (hs : tstep p t g l c = some (g', l')) (hpc' : l'.pc = .ldRead) : l'.tbl = g.cur ∧ g' = g := by
+  have hP := (popCont_pc_ne l).2.2.2.2
+  have hS := fun l op => (startOp_pc_ne (K := K) (V := V) l op).2.2.2.2.1
+  cases hpc : l.pc <;> simp only [tstep, hpc] at hs <;> (repeat' split at hs) <;>
+    simp only [Option.some.injEq, reduceCtorEq, Prod.mk.injEq] at hs <;> obtain ⟨rfl, rfl⟩ := hs <;>
+    simp_all [callResize, callWait]
+
+/-- the binding of `k` in a table generation that is or was current is a legal answer -/
+theorem read_wit (k : K) (H : List (Ev K V)) (s : St K V) (hJ : TabInv k H s) (T : Nat) (hw : WasCur H s T) :
+    Wit H s k ((s.g.tables T).data.get k) := by
+  by_cases hT : T = s.g.cur
+  · subst hT; exact Or.inl rfl
+  · rcases hw with h | h
+    · exact absurd h hT
+    · exact hJ.r1 T hT h
+
+/-- the history invariant of a lookup by thread `t`: at the read pc the table it loaded is or was current during
+the recorded steps; when a `Load k` is about to return, the value it returns is a legal answer -/
+structure RdInv (k : K) (t : Tid) (H : List (Ev K V)) (s : St K V) : Prop where
+  rd : (s.l t).pc = .ldRead → WasCur H s (s.l t).tbl
+  rt : (s.l t).pc = .ret → (s.l t).op = some (.load k) → ∀ v b, (s.l t).result = some (.val v b) → Wit H s k v
+
+theorem rdinv_step (p : Params K) (hmin : 0 < p.minLen) (k : K) (t : Tid) (H : List (Ev K V)) (s : St K V) (x : Tid)
+    (c : Choice K V) (s' : St K V) (hreach : Reach p s) (hT : TabInv k H s) (hJ : RdInv k t H s)
+    (hs : step p s x c = some s') : RdInv k t (H ++ [⟨s, x, c, s'⟩]) s' := by
+  obtain ⟨hts, hoth⟩ := step_def p s s' x c hs
+  by_cases hx : t = x
+  · subst hx
+    refine ⟨fun hpc => ?_, fun hpc hop v b hres => ?_⟩
+    · obtain ⟨e1, e2⟩ := read_entry p t s.g (s.l t) c _ _ hts hpc
+      exact Or.inl (by rw [e1, e2])
+    · obtain ⟨h1, h2⟩ := ret_entry_load p t s.g (s.l t) c _ _ (loadPc_reach p s hreach t) hts hpc k hop
+      obtain ⟨e1, -, hcase⟩ := read_step p t s.g (s.l t) c _ _ k (by simp [opKey, h2]) h1 hts
+      have hw := read_wit k H s hT _ (hJ.rd h1)
+      rcases hcase with ⟨-, -, hr⟩ | ⟨k0, f, lie, co, y, h3, -⟩ | ⟨h3, -⟩
+      · rw [hr] at hres; cases hres
+        exact wit_mono H s s' k _ _ rfl hw
+      · rw [h2] at h3; cases h3
+      · rw [h2] at h3; cases h3
+  · have hl := hoth t hx
+    refine ⟨fun hpc => ?_, fun hpc hop v b hres => ?_⟩
+    · rw [hl] at hpc ⊢; exact wasCur_mono H s s' _ _ rfl (hJ.rd hpc)
+    · rw [hl] at hpc hop hres; exact wit_mono H s s' k v _ rfl (hJ.rt hpc hop v b hres)
+
+/-- a legal answer w.r.t. the steps of a run, spelled out: the abstract binding in one of the visited states, or
+the binding installed by a writer that one of the `Clear` publish steps of the run helped -/
+theorem wit_run (p : Params K) (mid : List (Tid × Choice K V)) (s0 s' : St K V) (h1 : run p s0 mid = some s')
+    (k : K) (v : Option V) (h : Wit (events p s0 mid) s' k v) :
+    (∃ x ∈ trace p s0 mid, absGet x.g k = v) ∨
+    (∃ e ∈ events p s0 mid, ∃ u f lie co, HelpAt e u k f lie co ∧ v = (specDc f lie co (absGet e.pre.g k)).1) := by
+  rcases h with h | ⟨e, he, h⟩ | h
+  · exact Or.inl ⟨s', last_mem_trace p mid s0 s' h1, h⟩
+  · exact Or.inl ⟨e.pre, pre_mem_trace p mid s0 e he, h⟩
+  · exact Or.inr h
+
+/-- the two history invariants along a run that starts when thread `t` is neither at the read pc nor returning -/
+theorem hind_run (p : Params K) (hmin : 0 < p.minLen) (k : K) (t : Tid) (mid : List (Tid × Choice K V))
+    (s0 s' : St K V) (hreach : Reach p s0) (h1 : run p s0 mid = some s')
+    (hstart : (s0.l t).pc ≠ .ldRead ∧ (s0.l t).pc ≠ .ret) :
+    TabInv k (events p s0 mid) s' ∧ RdInv k t (events p s0 mid) s' := by
+  have := hist_run p (fun H s => TabInv k H s ∧ RdInv k t H s) ?_ mid s0 s' [] hreach
+    ⟨tabinv_nil k s0, fun h => absurd h hstart.1, fun h => absurd h hstart.2⟩ h1
+  · simpa using this
+  · intro H s x c s2 hr hJ hs
+    exact ⟨tabinv_step p hmin k H s x c s2 hr hJ.1 hs, rdinv_step p hmin k t H s x c s2 hr hJ.1 hJ.2 hs⟩
+
+/-- **(3a) hindsight for `Load`, across table generations.**  Let thread `t` be at the beginning of a call (or idle,
+or anywhere but at the read pc / the return pc) at the end of `pre`, and let it be about to return from `Load k`
+with value `v` at the end of `pre ++ mid`.  Then
+* either `v` is the abstract binding of `k` in one of the states visited during `mid` (its start included),
+* or `v` is the binding `(specDc f lie co (absGet g k)).1` installed by a writer `doCompute k f lie co` that was past
+  its checks on the current table in the state `g` right before a `Clear` publish step taken during `mid`: the writer
+  is linearized immediately before that `Clear` (Level 2), and `v` is the abstract binding in the virtual state
+  between the two — an instant inside the call. -/
+theorem load_hindsight (p : Params K) (hmin : 0 < p.minLen) (pre mid : List (Tid × Choice K V)) (s0 s' : St K V)
+    (h0 : run p (init p) pre = some s0) (h1 : run p s0 mid = some s') (t : Tid) (k : K) (v : Option V) (b : Bool)
+    (hstart : (s0.l t).pc ≠ .ldRead ∧ (s0.l t).pc ≠ .ret)
+    (hop : (s'.l t).op = some (.load k)) (hret : (s'.l t).pc = .ret) (hres : (s'.l t).result = some (.val v b)) :
+    (∃ x ∈ trace p s0 mid, absGet x.g k = v) ∨
+    (∃ e ∈ events p s0 mid, ∃ u f lie co, HelpAt e u k f lie co ∧ v = (specDc f lie co (absGet e.pre.g k)).1) := by
+  obtain ⟨-, hR⟩ := hind_run p hmin k t mid s0 s' ⟨pre, h0⟩ h1 hstart
+  exact wit_run p mid s0 s' h1 k v (hR.rt hret hop v b hres)
+
+/-- (3a), with the visited states counted from the initial state: the witness is among the states of the run of
+`pre ++ mid` after the first `pre.length` ones -/
+theorem load_hindsight_states (p : Params K) (hmin : 0 < p.minLen) (pre mid : List (Tid × Choice K V)) (s0 s' : St K V)
+    (h0 : run p (init p) pre = some s0) (h1 : run p s0 mid = some s') (t : Tid) (k : K) (v : Option V) (b : Bool)
+    (hstart : (s0.l t).pc = .ldTable)
+    (hop : (s'.l t).op = some (.load k)) (hret : (s'.l t).pc = .ret) (hres : (s'.l t).result = some (.val v b)) :
+    (∃ g ∈ (states p (pre ++ mid)).drop pre.length, absGet g k = v) ∨
+    (∃ e ∈ events p s0 mid, ∃ u f lie co, HelpAt e u k f lie co ∧ v = (specDc f lie co (absGet e.pre.g k)).1) := by
+  rcases load_hindsight p hmin pre mid s0 s' h0 h1 t k v b (by rw [hstart]; simp) hop hret hres with ⟨x, hx, h⟩ | h
+  · left
+    rw [states_drop p pre mid s0 h0]
+    exact ⟨x.g, List.mem_map.mpr ⟨x, hx, rfl⟩, h⟩
+  · exact Or.inr h
+
+/-- **(3b) hindsight for the lock-free read of any lookup** (`Load`, and the fast path of LoadOrStore/LoadOrCompute):
+if thread `t` was not at the read pc at the end of `pre` and is at the read pc at the end of `pre ++ mid`, then the
+binding of its key in the table generation it loaded — which is what the read step returns, see `read_step`,
+`fastpath_hit` — is a legal answer in the sense of (3a) -/
+theorem read_hindsight (p : Params K) (hmin : 0 < p.minLen) (pre mid : List (Tid × Choice K V)) (s0 s' : St K V)
+    (h0 : run p (init p) pre = some s0) (h1 : run p s0 mid = some s') (t : Tid) (k : K)
+    (hstart : (s0.l t).pc ≠ .ldRead) (hpc : (s'.l t).pc = .ldRead) :
+    let v := (s'.g.tables (s'.l t).tbl).data.get k
+    (∃ x ∈ trace p s0 mid, absGet x.g k = v) ∨
+    (∃ e ∈ events p s0 mid, ∃ u f lie co, HelpAt e u k f lie co ∧ v = (specDc f lie co (absGet e.pre.g k)).1) := by
+  intro v
+  have := hist_run p (fun H s => TabInv k H s ∧ ((s.l t).pc = .ldRead → WasCur H s (s.l t).tbl)) ?_ mid s0 s' []
+    ⟨pre, h0⟩ ⟨tabinv_nil k s0, fun h => absurd h hstart⟩ h1
+  · simp only [List.nil_append] at this
+    exact wit_run p mid s0 s' h1 k v (read_wit k _ s' this.1 _ (this.2 hpc))
+  · intro H s x c s2 hr hJ hs
+    refine ⟨tabinv_step p hmin k H s x c s2 hr hJ.1 hs, fun hpc2 => ?_⟩
+    obtain ⟨hts, hoth⟩ := step_def p s s2 x c hs
+    by_cases hx : t = x
+    · subst hx
+      obtain ⟨e1, e2⟩ := read_entry p t s.g (s.l t) c _ _ hts hpc2
+      exact Or.inl (by rw [e1, e2])
+    · rw [hoth t hx] at hpc2 ⊢
+      exact wasCur_mono H s s2 _ _ rfl (hJ.2 hpc2)
+
+/-- **(3b), for the fast-path hit of a writer**: the binding `some x` returned by the lock-free fast path of a
+`loadIfExists` call (`fastpath_hit`) is a legal answer of a lookup whose call covers `mid` -/
+theorem fastpath_hindsight (p : Params K) (hmin : 0 < p.minLen) (pre mid : List (Tid × Choice K V)) (s0 s' : St K V)
+    (h0 : run p (init p) pre = some s0) (h1 : run p s0 mid = some s') (t : Tid)
+    (k : K) (f : Option V → V × Bool) (lie co : Bool)
+    (hstart : (s0.l t).pc ≠ .ldRead) (hop : (s'.l t).op = some (.dc k f lie co)) (hpc : (s'.l t).pc = .ldRead)
+    (c : Choice K V) (g' : G K V) (l' : L K V) (hs : tstep p t s'.g (s'.l t) c = some (g', l')) (hhit : l'.pc = .ret) :
+    ∃ x, l'.result = some (.val (some x) (!co)) ∧
+      ((∃ st ∈ trace p s0 mid, absGet st.g k = some x) ∨
+       (∃ e ∈ events p s0 mid, ∃ u f' lie' co', HelpAt e u k f' lie' co' ∧
+          some x = (specDc f' lie' co' (absGet e.pre.g k)).1)) := by
+  have hreach : Reach p s' := reach_run p mid s0 s' ⟨pre, h0⟩ h1
+  obtain ⟨-, -, x, hx, hr, -⟩ := fastpath_hit p s' hreach t k f lie co hop hpc c g' l' hs hhit
+  have := read_hindsight p hmin pre mid s0 s' h0 h1 t k hstart hpc
+  simp only [hx] at this
+  exact ⟨x, hr, this⟩
+
+/-! ## part: Level 2a (history form) and Level 4 — every completed writer call has a linearization point -/
+
+/-- thread `u`, when past its checks, works on a table generation that is or was current during the recorded steps -/
+def PastInv (u : Tid) (H : List (Ev K V)) (s : St K V) : Prop :=
+  past2 (s.l u).pc = true → WasCur H s (s.l u).tbl
+
+theorem pastinv_step (p : Params K) (u : Tid) (H : List (Ev K V)) (s : St K V) (x : Tid)
+    (c : Choice K V) (s' : St K V) (hJ : PastInv u H s) (hs : step p s x c = some s') :
+    PastInv u (H ++ [⟨s, x, c, s'⟩]) s' := by
+  obtain ⟨hts, hoth⟩ := step_def p s s' x c hs
+  intro hp
+  by_cases hx : u = x
+  · subst hx
+    obtain ⟨e1, -, -, e4, hcase⟩ := past2_step p u s.g (s.l u) c _ _ hts hp
+    rcases hcase with ⟨h2, -⟩ | ⟨-, hc⟩
+    · rw [e1]; exact wasCur_mono H s s' _ _ rfl (hJ h2)
+    · exact Or.inl (by rw [e1, e4, hc])
+  · rw [hoth u hx] at hp ⊢
+    exact wasCur_mono H s s' _ _ rfl (hJ hp)
+
+/-- **(2a, history form) `retired_only_by_clear`**: in every reachable state, a writer `u` of key `k` that is past
+both its checks on a table generation that is no longer current was overtaken by the publish step of a `Clear`
+(never of a grow/shrink): that step `e` is in the history, `u` was already past its checks on the then current
+table, and the binding of `k` in the retired table is still the abstract binding right before that `Clear` -/
+theorem retired_only_by_clear (p : Params K) (hmin : 0 < p.minLen) (sched : List (Tid × Choice K V)) (s : St K V)
+    (hr : run p (init p) sched = some s) (u : Tid) (k : K) (f : Option V → V × Bool) (lie co : Bool)
+    (hop : (s.l u).op = some (.dc k f lie co)) (hpc : past2 (s.l u).pc = true) (hne : (s.l u).tbl ≠ s.g.cur) :
+    ∃ e ∈ events p (init p) sched, HelpAt e u k f lie co ∧ e.pre.g.cur = (s.l u).tbl ∧
+      (s.g.tables (s.l u).tbl).data.get k = absGet e.pre.g k := by
+  have := hist_run p (fun H s => TabInv k H s ∧ PastInv u H s) ?_ sched (init p) s [] ⟨[], rfl⟩
+    ⟨tabinv_nil k _, fun h => by simp [init, L.init, past2] at h⟩ hr
+  · simp only [List.nil_append] at this
+    obtain ⟨hT, hP⟩ := this
+    have hw : WasCurH (events p (init p) sched) (s.l u).tbl := by
+      rcases hP hpc with h | h
+      · exact absurd h hne
+      · exact h
+    obtain ⟨e, he, f', lie', co', hh, hc, hop', hd⟩ := hT.r2 _ hne hw u hpc rfl (by simp [opKey, hop])
+    rw [hop] at hop'; cases hop'
+    exact ⟨e, he, hh, hc, hd⟩
+  · intro H s x c s2 hr hJ hs
+    exact ⟨tabinv_step p hmin k H s x c s2 hr hJ.1 hs, pastinv_step p u H s x c s2 hJ.2 hs⟩
+
+/-- how a `doCompute` call gets to the pcs after its linearization point (or to its return) -/
+theorem popCont_fixed_entry (l : L K V) (hw : WF l) (h : inRz l.pc = true ∨ inWf l.pc = true)
+    (hf : fixedPc (popCont l) ∨ (popCont l).pc = .ret) (hdc : isDcOp (popCont l).op = true) :
+    .dcDone ∈ l.conts := by
+  have hcl := hw.cl
+  rcases popCont_cases l hw h with ⟨e, hc⟩ | ⟨e, hc⟩ | ⟨e, hc⟩ | ⟨c, e, hc, hne⟩
+  · rw [e] at hf; simp [fixedPc] at hf
+  · exact hc
+  · rw [e] at hdc; simp only at hdc; rw [hcl hc] at hdc; cases hdc
+  · rw [e] at hf; simp [fixedPc] at hf; rw [hc, ← hf]; simp
+
+theorem startOp_not_fixed (l : L K V) (op : POp K V) (hc : l.conts = []) :
+    ¬ fixedPc (startOp l op) ∧ (startOp l op).pc ≠ .ret := by
+  rcases op with _ | ⟨_, _, _ | _, _⟩ | _ | _ | _ <;> simp [startOp, fixedPc, hc]
+
+theorem fixed_entry (p : Params K) (t : Tid) (g : G K V) (l : L K V) (c : Choice K V) (g' : G K V) (l' : L K V)
+    (hw : WF l) (hs : tstep p t g l c = some (g', l')) (hf : fixedPc l' ∨ l'.pc = .ret)
+    (hdc : isDcOp l'.op = true) :
+    fixedPc l ∨ l.pc = .dcCommit ∨ (l.pc = .dcScan ∧ l'.pc = .dcUnlock) ∨ (l.pc = .ldRead ∧ l'.pc = .ret) := by
+  have hc := hw.cshape
+  have hpop := popCont_fixed_entry l hw
+  have hnd := hw.nodc
+  have hS := fun l op => (startOp_not_fixed (K := K) (V := V) l op)
+  cases hpc : l.pc <;> simp only [tstep, hpc] at hs <;> (repeat' split at hs) <;>
+    simp only [Option.some.injEq, reduceCtorEq, Prod.mk.injEq] at hs <;> obtain ⟨-, rfl⟩ := hs <;>
+    simp_all [contsOK, inRz, inWf, nonDcPc, callResize, callWait] <;>
+    simp_all [fixedPc]
+
+/-- `op` changes only when a call starts or returns -/
+theorem op_step (p : Params K) (t : Tid) (g : G K V) (l : L K V) (c : Choice K V) (g' : G K V) (l' : L K V)
+    (hs : tstep p t g l c = some (g', l')) : l'.op = l.op ∨ l.pc = .idle ∨ l.pc = .rgVisit ∨ l.pc = .ret := by
+  have hP := popCont_op l
+  cases hpc : l.pc <;> simp only [tstep, hpc] at hs <;> (repeat' split at hs) <;>
+    simp only [Option.some.injEq, reduceCtorEq, Prod.mk.injEq] at hs <;> obtain ⟨-, rfl⟩ := hs <;>
+    simp_all [callResize, callWait]
+
+/-- **the linearization point of a writer call** `doCompute k f lie co` of thread `t` that returns `(a, b)`, among the
+recorded steps `H`:
+* its own step under the bucket lock on the then current table — the commit, or the `loadIfExists` hit of the scan —
+  taken from a state with abstract binding `v` of `k`, with `(a, b)` the value/flag of `specDc f lie co v`; or
+* the publish step of a `Clear` by another thread, taken while `t` was past its checks on the then current table
+  (`HelpAt`), with `(a, b)` the value/flag of `specDc f lie co v` for the abstract binding `v` right before the
+  `Clear`: `t` is linearized immediately before the `Clear` (its later commit goes to the retired table); or
+* (`loadIfExists` calls only) the lock-free fast path hit on a binding `some x` that is a legal answer of a lookup
+  (`Wit`): the call is a pure lookup, `specDc f true co (some x) = (some x, some x, !co)` -/
+def LinW (H : List (Ev K V)) (s : St K V) (t : Tid) (k : K) (f : Option V → V × Bool) (lie co : Bool)
+    (a : Option V) (b : Bool) : Prop :=
+  (∃ e ∈ H, e.tid = t ∧ ((e.pre.l t).pc = .dcCommit ∨ (e.pre.l t).pc = .dcScan) ∧ (e.post.l t).pc = .dcUnlock ∧
+      (e.pre.l t).tbl = e.pre.g.cur ∧ (e.pre.l t).op = some (.dc k f lie co) ∧
+      a = (specDc f lie co (absGet e.pre.g k)).2.1 ∧ b = (specDc f lie co (absGet e.pre.g k)).2.2) ∨
+  (∃ e ∈ H, HelpAt e t k f lie co ∧
+      a = (specDc f lie co (absGet e.pre.g k)).2.1 ∧ b = (specDc f lie co (absGet e.pre.g k)).2.2) ∨
+  (lie = true ∧ ∃ x, a = some x ∧ b = (!co) ∧ Wit H s k (some x))
+
+theorem linw_mono (H : List (Ev K V)) (s s' : St K V) (t : Tid) (k : K) (f : Option V → V × Bool) (lie co : Bool)
+    (a : Option V) (b : Bool) (ev : Ev K V) (hpre : ev.pre = s) (h : LinW H s t k f lie co a b) :
+    LinW (H ++ [ev]) s' t k f lie co a b := by
+  rcases h with ⟨e, he, h⟩ | ⟨e, he, h⟩ | ⟨hl, x, ha, hb, hw⟩
+  · exact Or.inl ⟨e, List.mem_append_left _ he, h⟩
+  · exact Or.inr (Or.inl ⟨e, List.mem_append_left _ he, h⟩)
+  · exact Or.inr (Or.inr ⟨hl, x, ha, hb, wit_mono H s s' k _ ev hpre hw⟩)
+
+/-- the history invariant of a writer `t` on key `k` -/
+structure WrInv (k : K) (t : Tid) (H : List (Ev K V)) (s : St K V) : Prop where
+  rd : (s.l t).pc = .ldRead → WasCur H s (s.l t).tbl
+  pst : PastInv t H s
+  fx : (fixedPc (s.l t) ∨ (s.l t).pc = .ret) → ∀ f lie co, (s.l t).op = some (.dc k f lie co) →
+    ∀ a b, (s.l t).result = some (.val a b) → LinW H s t k f lie co a b
+
+theorem wrinv_step (p : Params K) (hmin : 0 < p.minLen) (k : K) (t : Tid) (H : List (Ev K V)) (s : St K V) (x : Tid)
+    (c : Choice K V) (s' : St K V) (hreach : Reach p s) (hT : TabInv k H s) (hJ : WrInv k t H s)
+    (hs : step p s x c = some s') : WrInv k t (H ++ [⟨s, x, c, s'⟩]) s' := by
+  obtain ⟨hts, hoth⟩ := step_def p s s' x c hs
+  refine ⟨?_, pastinv_step p t H s x c s' hJ.pst hs, ?_⟩
+  · intro hpc
+    by_cases hx : t = x
+    · subst hx
+      obtain ⟨e1, e2⟩ := read_entry p t s.g (s.l t) c _ _ hts hpc
+      exact Or.inl (by rw [e1, e2])
+    · rw [hoth t hx] at hpc ⊢; exact wasCur_mono H s s' _ _ rfl (hJ.rd hpc)
+  · intro hf f lie co hop a b hres
+    by_cases hx : t = x
+    · subst hx
+      have hw := ((inv_reach p s hreach).2 t).wf
+      have hmem : (⟨s, t, c, s'⟩ : Ev K V) ∈ H ++ [(⟨s, t, c, s'⟩ : Ev K V)] := by simp
+      rcases fixed_entry p t s.g (s.l t) c _ _ hw hts hf (by rw [hop]; rfl) with h | h | ⟨h, h'⟩ | ⟨h, h'⟩
+      · -- already fixed
+        obtain ⟨e1, e2, -⟩ := fixed_step p t s.g (s.l t) c _ _ hw h hts
+        exact linw_mono H s s' t k f lie co a b _ rfl
+          (hJ.fx (Or.inl h) f lie co (by rw [← e2]; exact hop) a b (by rw [← e1]; exact hres))
+      · -- the commit
+        have hop0 : (s.l t).op = some (.dc k f lie co) := by
+          rcases op_step p t s.g (s.l t) c _ _ hts with e | e | e | e
+          · rw [← e]; exact hop
+          all_goals (rw [h] at e; cases e)
+        obtain ⟨f1, f2, f3⟩ := commit_facts p hmin s hreach t k f lie co hop0 h
+        obtain ⟨-, e2, e3, -⟩ := commit_step_spec p t s.g (s.l t) c _ _ k f lie co hop0 h f1 f2 f3 hts
+        rw [e2] at hres
+        simp only [Option.some.injEq, Ret.val.injEq] at hres
+        by_cases htbl : (s.l t).tbl = s.g.cur
+        · have hab : absGet s.g k = (s.l t).old := by rw [f2, htbl]; rfl
+          refine Or.inl ⟨_, hmem, rfl, Or.inl h, e3, htbl, hop0, ?_, ?_⟩
+          · dsimp only; rw [hab]; exact hres.1.symm
+          · dsimp only; rw [hab]; exact hres.2.symm
+        · have hwc : WasCurH H (s.l t).tbl := by
+            rcases hJ.pst (by rw [h]; rfl) with e | e
+            · exact absurd e htbl
+            · exact e
+          obtain ⟨e, he, f', lie', co', hh, -, hop', hd⟩ :=
+            hT.r2 _ htbl hwc t (by rw [h]; rfl) rfl (by simp [opKey, hop0])
+          rw [hop0] at hop'; cases hop'
+          refine Or.inr (Or.inl ⟨e, List.mem_append_left _ he, hh, ?_, ?_⟩)
+          · rw [← hd, ← f2]; exact hres.1.symm
+          · rw [← hd, ← f2]; exact hres.2.symm
+      · -- the `loadIfExists` hit under the lock
+        have hop0 : (s.l t).op = some (.dc k f lie co) := by
+          rcases op_step p t s.g (s.l t) c _ _ hts with e | e | e | e
+          · rw [← e]; exact hop
+          all_goals (rw [h] at e; cases e)
+        obtain ⟨-, -, -, -, hcase⟩ := scan_step p t s.g (s.l t) c _ _ k f lie co hop0 h hts
+        rcases hcase with ⟨-, hl, y, hy, hr⟩ | ⟨e, -⟩ | ⟨e, -⟩
+        · subst hl
+          rw [hr] at hres
+          simp only [Option.some.injEq, Ret.val.injEq] at hres
+          by_cases htbl : (s.l t).tbl = s.g.cur
+          · have hab : absGet s.g k = some y := by unfold absGet; rw [← htbl]; exact hy
+            refine Or.inl ⟨_, hmem, rfl, Or.inr h, h', htbl, hop0, ?_, ?_⟩
+            · dsimp only; rw [hab]; simp [specDc, hres.1]
+            · dsimp only; rw [hab]; simp [specDc, hres.2]
+          · have hwc : WasCurH H (s.l t).tbl := by
+              rcases hJ.pst (by rw [h]; rfl) with e | e
+              · exact absurd e htbl
+              · exact e
+            obtain ⟨e, he, f', lie', co', hh, -, hop', hd⟩ :=
+              hT.r2 _ htbl hwc t (by rw [h]; rfl) rfl (by simp [opKey, hop0])
+            rw [hop0] at hop'; cases hop'
+            refine Or.inr (Or.inl ⟨e, List.mem_append_left _ he, hh, ?_, ?_⟩)
+            · rw [← hd, hy]; simp [specDc, hres.1]
+            · rw [← hd, hy]; simp [specDc, hres.2]
+        · rw [h'] at e; cases e
+        · rw [h'] at e; cases e
+      · -- the lock-free fast path
+        have hop0 : (s.l t).op = some (.dc k f lie co) := by
+          rcases op_step p t s.g (s.l t) c _ _ hts with e | e | e | e
+          · rw [← e]; exact hop
+          all_goals (rw [h] at e; cases e)
+        have hl : lie = true := by
+          have := (hw.ldpre h (by rw [hop0]; rfl)).2
+          simpa [dcFlags, hop0] using this
+        have hwit := read_wit k H s hT _ (hJ.rd h)
+        obtain ⟨-, -, hcase⟩ := read_step p t s.g (s.l t) c _ _ k (by simp [opKey, hop0]) h hts
+        rcases hcase with ⟨e, -⟩ | ⟨k0, f0, lie0, co0, y, e, hy, -, hr⟩ | ⟨-, -, e, -⟩
+        · rw [hop0] at e; cases e
+        · rw [hop0] at e; cases e
+          rw [hr] at hres
+          simp only [Option.some.injEq, Ret.val.injEq] at hres
+          rw [hy] at hwit
+          exact Or.inr (Or.inr ⟨hl, y, hres.1.symm, hres.2.symm, wit_mono H s s' k _ _ rfl hwit⟩)
+        · rw [h'] at e; cases e
+    · have hl := hoth t hx
+      rw [hl] at hf hop hres
+      exact linw_mono H s s' t k f lie co a b _ rfl (hJ.fx hf f lie co hop a b hres)
+
+/-- the history invariants of a writer along a run that starts when the thread is at the beginning of a call -/
+theorem wr_run (p : Params K) (hmin : 0 < p.minLen) (k : K) (t : Tid) (mid : List (Tid × Choice K V))
+    (s0 s' : St K V) (hreach : Reach p s0) (h1 : run p s0 mid = some s')
+    (hstart : (s0.l t).pc = .dcFast ∨ (s0.l t).pc = .dcLoadTable) :
+    TabInv k (events p s0 mid) s' ∧ WrInv k t (events p s0 mid) s' := by
+  have hc := ((inv_reach p s0 hreach).2 t).wf.cshape
+  have hconts : (s0.l t).conts = [] := by
+    rcases hstart with e | e <;> exact hc.1 (by rw [e]; rfl) (by rw [e]; rfl)
+  have h0 : WrInv k t [] s0 := by
+    refine ⟨fun h => ?_, fun h => ?_, fun h => ?_⟩
+    · rcases hstart with e | e <;> rw [e] at h <;> cases h
+    · rcases hstart with e | e <;> rw [e] at h <;> cases h
+    · exfalso
+      rcases hstart with e | e <;> simp [fixedPc, e, hconts] at h
+  have := hist_run p (fun H s => TabInv k H s ∧ WrInv k t H s) ?_ mid s0 s' [] hreach ⟨tabinv_nil k s0, h0⟩ h1
+  · simpa using this
+  · intro H s x c s2 hr hJ hs
+    exact ⟨tabinv_step p hmin k H s x c s2 hr hJ.1 hs, wrinv_step p hmin k t H s x c s2 hr hJ.1 hJ.2 hs⟩
+
+/-- **Level 4: every completed writer call is linearizable at a step inside the call.**  Let thread `t` be at the
+first pc of a `doCompute` call at the end of `pre`, and about to return `(a, b)` from `doCompute k f lie co` at the end
+of `pre ++ mid`.  Then one of the steps `e` taken during `mid` is its linearization point:
+1. *own step, table current*: `e` is `t`'s commit — or the hit of `loadIfExists` in the scan under the lock — on the
+   table that is current at that instant; the abstract binding of `k` goes from `v := absGet e.pre.g k` to
+   `(specDc f lie co v).1`, no other key changes, and `(a, b)` is the value/flag of `specDc f lie co v`;
+2. *helped*: `e` is the publish step of a `Clear` by another thread, taken while `t` was past both its checks on the
+   then current table; after `e` the abstract content is empty; `(a, b)` is the value/flag of `specDc f lie co v` for
+   `v := absGet e.pre.g k`: `t` is linearized immediately before the `Clear` (its own commit comes later and goes to
+   the retired table: `commit_on_retired_invisible`);
+3. *lock-free fast path* (`loadIfExists` calls only): the call is a pure lookup returning `(some x, !co)` — what
+   `specDc f true co (some x)` returns, without changing the binding — where `some x` is a legal answer of a lookup
+   in the sense of `load_hindsight`. -/
+theorem writer_linearizable (p : Params K) (hmin : 0 < p.minLen) (pre mid : List (Tid × Choice K V)) (s0 s' : St K V)
+    (h0 : run p (init p) pre = some s0) (h1 : run p s0 mid = some s') (t : Tid)
+    (k : K) (f : Option V → V × Bool) (lie co : Bool) (a : Option V) (b : Bool)
+    (hstart : (s0.l t).pc = .dcFast ∨ (s0.l t).pc = .dcLoadTable)
+    (hop : (s'.l t).op = some (.dc k f lie co)) (hret : (s'.l t).pc = .ret)
+    (hres : (s'.l t).result = some (.val a b)) :
+    (∃ e ∈ events p s0 mid, e.tid = t ∧ ((e.pre.l t).pc = .dcCommit ∨ (e.pre.l t).pc = .dcScan) ∧
+        (e.pre.l t).tbl = e.pre.g.cur ∧ (e.pre.l t).op = some (.dc k f lie co) ∧
+        absGet e.post.g k = (specDc f lie co (absGet e.pre.g k)).1 ∧
+        (∀ k', k' ≠ k → absGet e.post.g k' = absGet e.pre.g k') ∧
+        a = (specDc f lie co (absGet e.pre.g k)).2.1 ∧ b = (specDc f lie co (absGet e.pre.g k)).2.2) ∨
+    (∃ e ∈ events p s0 mid, e.tid ≠ t ∧ HelpAt e t k f lie co ∧ (∀ k', absGet e.post.g k' = none) ∧
+        a = (specDc f lie co (absGet e.pre.g k)).2.1 ∧ b = (specDc f lie co (absGet e.pre.g k)).2.2) ∨
+    (lie = true ∧ ∃ x, a = some x ∧ b = (!co) ∧
+      ((∃ st ∈ trace p s0 mid, absGet st.g k = some x) ∨
+       (∃ e ∈ events p s0 mid, ∃ u f' lie' co', HelpAt e u k f' lie' co' ∧
+          some x = (specDc f' lie' co' (absGet e.pre.g k)).1))) := by
+  have hreach : Reach p s0 := ⟨pre, h0⟩
+  obtain ⟨-, hW⟩ := wr_run p hmin k t mid s0 s' hreach h1 hstart
+  have hsound := events_sound p mid s0 hreach
+  rcases hW.fx (Or.inr hret) f lie co hop a b hres with
+    ⟨e, he, htid, hpc, hpost, htbl, hope, ha, hb⟩ | ⟨e, he, hh, ha, hb⟩ | ⟨hl, x, ha, hb, hw⟩
+  · left
+    obtain ⟨hr, hst⟩ := hsound e he
+    rw [htid] at hst
+    obtain ⟨hts, -⟩ := step_def p e.pre e.post t e.ch hst
+    refine ⟨e, he, htid, hpc, htbl, hope, ?_, ?_, ha, hb⟩
+    · rcases hpc with hpc | hpc
+      · exact (commit_is_spec_step p hmin e.pre hr t k f lie co hope hpc htbl e.ch _ _ hts).1
+      · exact (scan_hit_is_spec_step p e.pre t k f lie co hope hpc htbl e.ch _ _ hts hpost).2.2.1
+    · rcases hpc with hpc | hpc
+      · exact (commit_is_spec_step p hmin e.pre hr t k f lie co hope hpc htbl e.ch _ _ hts).2.2
+      · have := (scan_hit_is_spec_step p e.pre t k f lie co hope hpc htbl e.ch _ _ hts hpost).2.1
+        intro k' _; rw [this]
+  · right; left
+    obtain ⟨hr, hst⟩ := hsound e he
+    obtain ⟨hts, -⟩ := step_def p e.pre e.post e.tid e.ch hst
+    have hh0 := hh
+    obtain ⟨hpc, hhint, hp2, -, -⟩ := hh0
+    have hne : e.tid ≠ t := by
+      intro e'; rw [e'] at hpc; rw [hpc] at hp2; cases hp2
+    exact ⟨e, he, hne, hh, clear_publish_empties p hmin e.pre hr e.tid e.ch _ _ hpc hhint hts, ha, hb⟩
+  · right; right
+    exact ⟨hl, x, ha, hb, wit_run p mid s0 s' h1 k _ hw⟩
 
 end Proofs.ProtoLin
